@@ -82,6 +82,9 @@ pub enum QuadHow {
     NewSlice(IntTy),
     /// collect directly into the structure
     Collect(IntTy),
+    /// `QVectorBuilder::with_capacity(n * num / 4)` (exact for num = 4, under- / over-estimated
+    /// otherwise), pushes, `build()`, then `From<QVector>`
+    Builder(u8),
     Default,
 }
 
@@ -119,6 +122,18 @@ impl QuadVal {
             },
             QuadHow::FromQVector(ty) => {
                 let qv: QVector = with_int_ty!(ty, T => carry::<T>(q, salt).into_iter().collect());
+                match kind {
+                    QuadKind::Qv => QuadVal::Qv(qv),
+                    QuadKind::Rs256 => QuadVal::Rs256(RSQVector256::from(qv)),
+                    QuadKind::Rs512 => QuadVal::Rs512(RSQVector512::from(qv)),
+                }
+            }
+            QuadHow::Builder(num) => {
+                let mut b = qwt::QVectorBuilder::with_capacity(q.len() * num as usize / 4);
+                for &s in q {
+                    b.push(s);
+                }
+                let qv = b.build();
                 match kind {
                     QuadKind::Qv => QuadVal::Qv(qv),
                     QuadKind::Rs256 => QuadVal::Rs256(RSQVector256::from(qv)),
